@@ -1,4 +1,5 @@
 import ast
+import copy
 import functools
 import inspect
 from collections.abc import Mapping, MutableMapping
@@ -144,7 +145,7 @@ def stateful_eval(
     stateful_nodes: list[tuple[str, ast.Call]] = []
     for node in ast.walk(code):
         if _is_stateful_transform(node, env):
-            stateful_nodes.append((format_expr(node), cast(ast.Call, node)))
+            stateful_nodes.append((_get_state_key(node, aliases), cast(ast.Call, node)))
 
     # Mutate stateful nodes to pass in state from a shared dictionary.
     for name, node in stateful_nodes:
@@ -200,6 +201,28 @@ def stateful_eval(
             env,
         ),
     )  # nosec
+
+
+def _get_state_key(node: ast.AST, aliases: Mapping[str, str]) -> str:
+    """
+    The key under which the state of the stateful call `node` is recorded: its
+    formatted source, with the aliases of back-quoted names that are not valid
+    identifiers replaced by the names themselves (an alias is not unique to a
+    name, and may have a random suffix).
+    """
+
+    def is_alias(child: ast.AST) -> bool:
+        return (
+            isinstance(child, ast.Name)
+            and aliases.get(child.id, child.id) != child.id
+        )
+
+    if any(is_alias(child) for child in ast.walk(node)):
+        node = copy.deepcopy(node)
+        for child in ast.walk(node):
+            if is_alias(child):
+                child.id = f"`{aliases[child.id]}`"  # type: ignore[attr-defined]
+    return format_expr(node)
 
 
 def _is_stateful_transform(node: ast.AST, env: Mapping) -> bool:
